@@ -1,5 +1,6 @@
 (* modelrun command "codegen-x86": the model of the x86-64 code generator against the real one. *)
 From Coq Require Import List ZArith NArith String Bool.
+From SCC Require Import Model.LinCheck.
 From SCC Require Import Sem.LabelText.
 From SCC Require Import Base.Sexp Lang.AxSyn Sem.AxSem Sem.AxTrace Sem.X86Sem Sem.X86Wf Sem.LabelGuard Sem.HeapCheck Sem.X86Heap Model.Backend Model.X86 Model.X86Io Model.RunBase.
 Import ListNotations.
@@ -131,6 +132,8 @@ Definition heap_x86_case (i r : sexp) : verdict :=
               | Some cs_s, Some cs =>
                   if negb (match pdefs p with d :: _ => forallb (fun b => match bchi b with Ext => true | _ => false end) (dctx d) | [] => false end)
                   then VSkip "first definition is not an entry point (non-integer parameters)"
+                  else if negb (lin_check_prog p)
+                  then VSkip "not a linearity-checked program: outside the precondition of C09 (C05 / C12 decide that; e.g. the known fun2core capture finding passes a prd where an ext is declared)"
                   else
                     let mcs := match x86_compile_marked p lc with
                                | Ok (mcs, _, _) => if codes_eqb (filter (fun c => negb (is_mark c)) mcs) cs then Some mcs else None
